@@ -1,4 +1,6 @@
 import CopVerif.Real.Clayton
+import CopVerif.Real.Frank
+import CopVerif.Real.Gumbel
 /-!
 # C06 — Clayton, Frank and Gumbel CDFs are genuine Archimedean copulas
 
@@ -62,5 +64,120 @@ theorem clayton_frechet_upper {θ u v : ℝ} (hθ : 0 < θ) (hu : 0 ≤ u) (hu1 
 /-- non-vacuity: the hypotheses of the theorems above are satisfiable, and the statement is
     about a non-trivial value. -/
 example : (0:ℝ) < 2 ∧ (0:ℝ) < 1/2 ∧ (1/2:ℝ) ≤ 1 := by norm_num
+
+/-! ## Frank (every θ ≠ 0, both signs) -/
+
+theorem frank_row_independent {θ : ℝ} (hθ : θ ≠ 0) (xs : List (ℝ × ℝ)) :
+    Gen.Frank.cdf θ xs = .ok (xs.map fun p => Gen.Frank.cdfRow θ p.1 p.2) := by
+  rw [Frank.cdf_rowwise hθ]; simp only [Frank.bridge_cdfRow]
+
+/-- θ = 0 is refused (`check_fit`), never evaluated. -/
+theorem frank_theta_zero_refused (xs : List (ℝ × ℝ)) :
+    Gen.Frank.cdf (0 : ℝ) xs = .error .notFitted := Frank.cdf_theta_zero xs
+
+theorem frank_boundary {θ : ℝ} (hθ : θ ≠ 0) (u v : ℝ) :
+    Gen.Frank.cdfRow θ u 0 = 0 ∧ Gen.Frank.cdfRow θ 0 v = 0 ∧
+      Gen.Frank.cdfRow θ u 1 = u ∧ Gen.Frank.cdfRow θ 1 v = v := by
+  simp only [Frank.bridge_cdfRow]
+  exact ⟨Frank.C_zero_right θ u, Frank.C_zero_left θ v, Frank.C_one_right hθ u, Frank.C_one_left hθ v⟩
+
+theorem frank_symm (θ u v : ℝ) : Gen.Frank.cdfRow θ u v = Gen.Frank.cdfRow θ v u := by
+  simp only [Frank.bridge_cdfRow]; exact Frank.C_symm θ u v
+
+theorem frank_generator_one {θ : ℝ} (hθ : θ ≠ 0) : Gen.Frank.generator θ 1 = 0 := by
+  rw [Frank.bridge_generator]; exact Frank.φ_one hθ
+
+theorem frank_generator_strictAnti {θ : ℝ} (hθ : θ ≠ 0) :
+    StrictAntiOn (fun t => Gen.Frank.generator θ t) (Set.Ioc 0 1) := by
+  have : (fun t => Gen.Frank.generator θ t) = Frank.φ θ := by
+    funext t; exact Frank.bridge_generator θ t
+  rw [this]; exact Frank.φ_strictAntiOn hθ
+
+theorem frank_archimedean {θ u v : ℝ} (hθ : θ ≠ 0) (hu : 0 < u) (hu1 : u ≤ 1) (hv : 0 < v)
+    (hv1 : v ≤ 1) :
+    Gen.Frank.generator θ (Gen.Frank.cdfRow θ u v)
+      = Gen.Frank.generator θ u + Gen.Frank.generator θ v := by
+  simp only [Frank.bridge_generator, Frank.bridge_cdfRow]
+  exact Frank.φ_C hθ hu hu1 hv hv1
+
+theorem frank_mono {θ u u' v v' : ℝ} (hθ : θ ≠ 0) (hu : 0 ≤ u) (huu : u ≤ u') (hu1 : u' ≤ 1)
+    (hv : 0 ≤ v) (hvv : v ≤ v') (hv1 : v' ≤ 1) :
+    Gen.Frank.cdfRow θ u v ≤ Gen.Frank.cdfRow θ u' v' := by
+  simp only [Frank.bridge_cdfRow]
+  exact le_trans (Frank.C_mono_left hθ huu hv (le_trans hvv hv1))
+    (Frank.C_mono_right hθ hvv (le_trans hu huu) hu1)
+
+/-- Both Fréchet–Hoeffding bounds on the closed unit square. -/
+theorem frank_frechet {θ u v : ℝ} (hθ : θ ≠ 0) (hu : 0 ≤ u) (hu1 : u ≤ 1) (hv : 0 ≤ v)
+    (hv1 : v ≤ 1) :
+    max (u + v - 1) 0 ≤ Gen.Frank.cdfRow θ u v ∧ Gen.Frank.cdfRow θ u v ≤ min u v := by
+  simp only [Frank.bridge_cdfRow]
+  exact ⟨Frank.max_le_C hθ hu hu1 hv hv1, Frank.C_le_min hθ hu hu1 hv hv1⟩
+
+/-- Every rectangle has non-negative C-volume (2-increasing). -/
+theorem frank_two_increasing {θ u u' v v' : ℝ} (hθ : θ ≠ 0) (hu : 0 ≤ u) (huu : u ≤ u')
+    (hu1 : u' ≤ 1) (hvv : v ≤ v') :
+    0 ≤ Gen.Frank.cdfRow θ u' v' - Gen.Frank.cdfRow θ u' v - Gen.Frank.cdfRow θ u v'
+        + Gen.Frank.cdfRow θ u v := by
+  simp only [Frank.bridge_cdfRow]; exact Frank.C_two_increasing hθ hu huu hu1 hvv
+
+/-! ## Gumbel (θ ≥ 1; at θ = 1 the code returns the product `u·v`) -/
+
+theorem gumbel_row_independent {θ : ℝ} (hθ : 1 ≤ θ) (xs : List (ℝ × ℝ)) :
+    Gen.Gumbel.cdf θ xs = .ok (xs.map fun p => Gen.Gumbel.cdfPt θ p.1 p.2) := by
+  rw [Gumbel.cdf_rowwise hθ]; simp only [Gumbel.bridge_cdfPt]
+
+theorem gumbel_boundary_one {θ u v : ℝ} (hθ : 1 ≤ θ) (hu : 0 < u) (hu1 : u ≤ 1) (hv : 0 < v)
+    (hv1 : v ≤ 1) : Gen.Gumbel.cdfPt θ u 1 = u ∧ Gen.Gumbel.cdfPt θ 1 v = v := by
+  simp only [Gumbel.bridge_cdfPt]
+  by_cases h1 : θ = 1
+  · simp [h1]
+  · simp only [h1, if_false]
+    exact ⟨Gumbel.C_one_right hθ hu hu1, Gumbel.C_one_left hθ hv hv1⟩
+
+/-- Boundary at zero: only the θ = 1 product branch is covered over ℝ.  For θ > 1 the code goes
+through IEEE `log 0 = -inf`; that clause (`gumbel cdf_zero`) is `_partial`: Float-level tie only. -/
+theorem gumbel_boundary_zero_partial (u v : ℝ) :
+    Gen.Gumbel.cdf (1 : ℝ) [(u, 0)] = .ok [0] ∧ Gen.Gumbel.cdf (1 : ℝ) [(0, v)] = .ok [0] :=
+  ⟨Gumbel.cdf_theta_one_zero_right u, Gumbel.cdf_theta_one_zero_left v⟩
+
+theorem gumbel_symm (θ u v : ℝ) : Gen.Gumbel.cdfPt θ u v = Gen.Gumbel.cdfPt θ v u := by
+  simp only [Gumbel.bridge_cdfPt, Gumbel.C_symm θ u v, mul_comm u v]
+
+/-- The θ = 1 shortcut agrees with the general closed form (consistent for the CDF). -/
+theorem gumbel_theta_one_consistent {u v : ℝ} (hu : 0 < u) (hv : 0 < v) :
+    Gen.Gumbel.cdfRow (1 : ℝ) u v = u * v := by
+  rw [Gumbel.bridge_cdfRow]; exact Gumbel.C_theta_one hu hv
+
+theorem gumbel_generator_one {θ : ℝ} (hθ : 1 ≤ θ) : Gen.Gumbel.generator θ 1 = 0 := by
+  rw [Gumbel.bridge_generator]; exact Gumbel.φ_one hθ
+
+theorem gumbel_generator_strictAnti {θ : ℝ} (hθ : 1 ≤ θ) :
+    StrictAntiOn (fun t => Gen.Gumbel.generator θ t) (Set.Ioc 0 1) := by
+  have : (fun t => Gen.Gumbel.generator θ t) = Gumbel.φ θ := by
+    funext t; exact Gumbel.bridge_generator θ t
+  rw [this]; exact Gumbel.φ_strictAntiOn hθ
+
+theorem gumbel_archimedean {θ u v : ℝ} (hθ : 1 ≤ θ) (hu : 0 < u) (hu1 : u ≤ 1) (hv : 0 < v)
+    (hv1 : v ≤ 1) :
+    Gen.Gumbel.generator θ (Gen.Gumbel.cdfRow θ u v)
+      = Gen.Gumbel.generator θ u + Gen.Gumbel.generator θ v := by
+  simp only [Gumbel.bridge_generator, Gumbel.bridge_cdfRow]
+  exact Gumbel.φ_C hθ hu hu1 hv hv1
+
+theorem gumbel_mono {θ u u' v v' : ℝ} (hθ : 1 ≤ θ) (hu : 0 < u) (huu : u ≤ u') (hu1 : u' ≤ 1)
+    (hv : 0 < v) (hvv : v ≤ v') (hv1 : v' ≤ 1) :
+    Gen.Gumbel.cdfRow θ u v ≤ Gen.Gumbel.cdfRow θ u' v' := by
+  simp only [Gumbel.bridge_cdfRow]
+  exact le_trans (Gumbel.C_mono_left hθ hu huu hu1 hv (le_trans hvv hv1))
+    (Gumbel.C_mono_right hθ hv hvv hv1 (lt_of_lt_of_le hu huu) hu1)
+
+theorem gumbel_frechet_upper {θ u v : ℝ} (hθ : 1 ≤ θ) (hu : 0 < u) (hu1 : u ≤ 1) (hv : 0 < v)
+    (hv1 : v ≤ 1) :
+    0 < Gen.Gumbel.cdfRow θ u v ∧ Gen.Gumbel.cdfRow θ u v ≤ min u v := by
+  simp only [Gumbel.bridge_cdfRow]
+  exact ⟨Gumbel.C_pos hθ hu hu1 hv hv1, Gumbel.C_le_min hθ hu hu1 hv hv1⟩
+
+example : (1:ℝ) ≤ 2 ∧ (-3:ℝ) ≠ 0 := by norm_num
 
 end CopVerif.Props.C06
